@@ -44,7 +44,9 @@ func PackSize(format string) (uint, error) {
 			return 0, s.err
 		}
 	}
-
+	if s.alignOnly {
+		return 0, errExpectedOption
+	}
 	return s.size, nil
 }
 
